@@ -20,7 +20,13 @@ import StorageModel.Codec.Context
                               Update under the checker), the context (`^` = ctx.GetParentContext(), `.` =
                               ctx), an optional GetOrCreatePath below its bucket, optional
                               WithFieldOverrides; `<code>:<field>:<value>` tokens are its field operations
-   value text: N | S<wire> | i<int> | I<int> | n<int> | F<hex16> | B0 | B1 | T<hex> | M(<wire>=V,…) | L(V,…) | U -/
+     tm <sec> <nsec> <rep>    `time.Time.MarshalBinary` on the value as given, `UnmarshalBinary` of the bytes
+     tu <w>                   `time.Time.UnmarshalBinary` of arbitrary bytes
+   value text: N | S<wire> | i<int> | I<int> | n<int> | F<hex16> | B0 | B1 | T<hex>[/<rep>] | M(<wire>=V,…) | L(V,…) | U
+   a time: <hex> = the UTC `MarshalBinary` bytes of the instant, <rep> = the representation the writer is
+   handed: `u` UTC, `f<off>` / `l<off>` / `L<off>` a zone with that offset (FixedZone, `time.Local` set to
+   one, the process's own Local), `n<off>` such a zone and a monotonic reading; without <rep> one of six
+   zones picked by the payload bytes -/
 namespace StorageModel.Driver.C13
 open StorageModel StorageModel.Driver StorageModel.Codec
 
@@ -46,6 +52,46 @@ def parseInt (s : List Char) : Option Int :=
 
 def parseWire (s : List Char) : Option Bytes := Bytes.ofHex (String.ofList s)
 
+/-- the six zones of the older cases: UTC, +5:30, -8, +14, -3:27:13, `FixedZone("", 0)` -/
+def legacyLoc (payload : Bytes) : Loc :=
+  match (payload.foldl (fun a b => a + b.toNat) 0) % 6 with
+  | 0 => .utc
+  | 1 => .zone 19800
+  | 2 => .zone (-28800)
+  | 3 => .zone 50400
+  | 4 => .zone (-12433)
+  | _ => .zone 0
+
+/-- representation suffix of a time -/
+def parseRep (s : List Char) : Option (Loc × Bool) :=
+  match s with
+  | ['u'] => some (.utc, false)
+  | 'f' :: r => (parseInt r).map fun o => (.zone o, false)
+  | 'l' :: r => (parseInt r).map fun o => (.zone o, false)
+  | 'L' :: r => (parseInt r).map fun o => (.zone o, false)
+  | 'n' :: r => (parseInt r).map fun o => (.zone o, true)
+  | _ => none
+
+/-- `T<hex>[/<rep>]`: the instant from the bytes (through the model of `UnmarshalBinary`), the
+    representation from the suffix -/
+def parseTime (tok : List Char) : Option GoTime :=
+  let (h, r) := tok.span (· != '/')
+  match parseWire h with
+  | none => none
+  | some b =>
+    match unmarshalBinary b with
+    | .error _ => none
+    | .ok t =>
+      match r with
+      | [] => some { t with loc := legacyLoc b }
+      | _ :: rep => (parseRep rep).map fun (l, m) => { t with loc := l, mono := m }
+
+/-- how a time is printed: the bytes of `value.UTC().MarshalBinary()` -/
+def timeText (t : GoTime) : String :=
+  match marshalBinary t.utc with
+  | .ok p => "T" ++ wire p
+  | .error _ => "T!marshal"
+
 mutual
 partial def parseV (s : List Char) : Option (Value × List Char) :=
   match s with
@@ -54,7 +100,7 @@ partial def parseV (s : List Char) : Option (Value × List Char) :=
   | 'B' :: '0' :: r => some (.bool false, r)
   | 'B' :: '1' :: r => some (.bool true, r)
   | 'S' :: r => let (t, r') := spanTok r; (parseWire t).map fun b => (.str b, r')
-  | 'T' :: r => let (t, r') := spanTok r; (parseWire t).map fun b => (.time b, r')
+  | 'T' :: r => let (t, r') := spanTok r; (parseTime t).map fun b => (.time b, r')
   | 'i' :: r => let (t, r') := spanTok r; (parseInt t).map fun i => (.i32 i, r')
   | 'I' :: r => let (t, r') := spanTok r; (parseInt t).map fun i => (.i64 i, r')
   | 'n' :: r => let (t, r') := spanTok r; (parseInt t).map fun i => (.goInt i, r')
@@ -94,7 +140,7 @@ partial def showV : Value → String
   | .unsupported => "U"
   | .bool b => if b then "B1" else "B0"
   | .str s => "S" ++ wire s
-  | .time p => "T" ++ wire p
+  | .time t => timeText t
   | .i32 i => "i" ++ toString i
   | .i64 i => "I" ++ toString i
   | .goInt i => "n" ++ toString i
@@ -118,6 +164,7 @@ def errName : BErr → String
   | .nestedLists => "nestedLists"
   | .unsupported => "unsupported"
   | .required => "required"
+  | .timeMarshal => "timeMarshal"
 
 def keyErrName : KeyErr → String
   | .encodeTooLong => "encodeTooLong"
@@ -281,7 +328,7 @@ def fieldReadsP (p : String) (es : Bkt) (f : Bytes) : List String :=
     p ++ "i32=" ++ optText toString (getInt32 es f),
     p ++ "i64=" ++ optText toString (getInt64 es f),
     p ++ "f64=" ++ optText floatBits (getFloat64 es f),
-    p ++ "t=" ++ optText (fun b => "T" ++ wire b) (getTime es f),
+    p ++ "t=" ++ optText timeText (getTime es f),
     p ++ "sl=" ++ listText ((getStringList es f).getD []),
     p ++ "m=" ++ resText showV (getMap es f),
     p ++ "l=" ++ resText (optText showV) (getList es f) ]
@@ -349,7 +396,8 @@ def demandsP (p : String) (op : Option FieldOp) : List String :=
   | some (.i64 i) => [p ++ "i64=" ++ toString i]
   | some (.f64 b) => [p ++ "f64=" ++ hex16 b]
   | some (.bool b) => [p ++ "b=" ++ (if b then "1" else "0")]
-  | some (.time t) | some (.timeP (some t)) => [p ++ "t=T" ++ wire t]
+  -- the instant that was written, whatever its representation
+  | some (.time t) | some (.timeP (some t)) => [p ++ "t=" ++ timeText { sec := t.sec, nsec := t.nsec }]
   | some (.strList xs) | some (.getAndSetStrList xs) => [p ++ "sl=" ++ listText (sortDedup xs)]
   | some (.map kvs _) => [p ++ "m=" ++ showV (normalize (.map kvs))]
   | some (.list xs) => [p ++ "l=" ++ showV (normalize (.list xs))]
@@ -544,6 +592,54 @@ def specH (toks : List String) : String :=
         " ".intercalate (["err=none"] ++ (hFields sc).flatMap fun (bp, f) =>
           if sup (eff bp f) then demandsP (hPrefix bp f) (eff bp f) else [])
 
+/-! ## `time.Time.MarshalBinary` / `UnmarshalBinary` themselves -/
+
+def locText : Loc → String
+  | .utc => "u"
+  | .zone o => toString o
+
+def timeFieldsText (t : GoTime) : String := s!"{t.sec}/{t.nsec}/" ++ locText t.loc
+
+def unmarshalText (b : Bytes) : String × Option GoTime :=
+  match unmarshalBinary b with
+  | .error .noData => ("ub=err:noData", none)
+  | .error .version => ("ub=err:version", none)
+  | .error .length => ("ub=err:length", none)
+  | .error .zoneOffset => ("ub=err:other", none)
+  | .ok t => ("ub=" ++ timeFieldsText t, some t)
+
+def stepTM (toks : List String) : String :=
+  match toks with
+  | [s, n, r] =>
+    match parseInt s.toList, n.toNat?, parseRep r.toList with
+    | some sec, some nsec, some (l, m) =>
+      let t : GoTime := { sec := sec, nsec := nsec, loc := l, mono := m }
+      match marshalBinary t with
+      | .error _ => "mb=err:zoneOffset"
+      | .ok p =>
+        let (ub, u) := unmarshalText p
+        let same := match u with
+          | none => "-"
+          | some u => if u.sec = t.sec ∧ u.nsec = t.nsec then "1" else "0"
+        "mb=" ++ wire p ++ " " ++ ub ++ " same=" ++ same
+    | _, _, _ => "bad-case"
+  | _ => "bad-case"
+
+/-- what the property's codec relies on: a valid time marshalled as given is either refused or read
+    back as the same instant; a UTC time is never refused -/
+def specTM (toks : List String) : String :=
+  match toks with
+  | [_, _, "u"] => "same=1"
+  | _ => "-"
+
+def stepTU (w : String) : String :=
+  match Bytes.ofHex w with
+  | none => "bad-case"
+  | some b =>
+    match unmarshalText b with
+    | (ub, none) => ub
+    | (ub, some t) => ub ++ " rm=" ++ timeText t
+
 def step (line : String) : String :=
   match splitSp line with
   | "k" :: ws => stepK ws
@@ -553,6 +649,8 @@ def step (line : String) : String :=
   | "j" :: ws => stepJ ws
   | "e" :: toks => stepE toks
   | "h" :: toks => stepH toks
+  | "tm" :: toks => stepTM toks
+  | ["tu", w] => stepTU w
   | _ => "bad-case"
 
 def specStep (line : String) : String :=
@@ -562,6 +660,8 @@ def specStep (line : String) : String :=
   | "j" :: ws => specJ ws
   | "e" :: toks => specE toks
   | "h" :: toks => specH toks
+  | "tm" :: toks => specTM toks
+  | ["tu", _] => "-"
   | _ => "bad-case"
 
 def run (spec : Bool) : IO Unit := forEachLine (if spec then specStep else step)
